@@ -133,6 +133,15 @@ class C09(Check):
             self.holds("P2", PAR, "parallelise", "parallel-order", pm[0], "pool.map(worker, inputs) consumed with next(it) and appended in arrival (= input) order")
         else:
             self.violated("P2", PAR, "parallelise", "parallel-order", fn, "parallel results are not appended in input order")
+        rets = [r for r in walk_no_nested(fn) if isinstance(r, ast.Return) and r.value is not None]
+        rebound = [n for n in walk_no_nested(fn) if isinstance(n, (ast.Assign, ast.AugAssign)) and "inputs" in [norm(t) for t in (n.targets if isinstance(n, ast.Assign) else [n.target])]]
+        if rets and all(norm(r.value) == "results" for r in rets) and not rebound:
+            self.holds("P2", PAR, "parallelise", "returns-consumption-list", rets[-1], "every return hands back `results` itself; `inputs` is never filtered or rebound")
+        else:
+            bad = rebound[0] if rebound else [r for r in rets if norm(r.value) != "results"][0]
+            self.violated("P2", PAR, "parallelise", "returns-consumption-list", bad,
+                          f"`{norm(bad)[:70]}`: the returned list is no longer exactly the per-input results in input order (inputs filtered / lists concatenated)",
+                          witness="a scan re-run on a partially filled cache (keys 2 and 4 of 1..4 cached): values are attached to the wrong scan rows")
         # containers
         for rel, name, f, c, first in entries:
             rets = [r for r in walk_no_nested(f) if isinstance(r, ast.Return) and r.value is not None]
@@ -202,6 +211,8 @@ class C09(Check):
                     "partial(worker, time_points=time_points, integrator=integrator, y0=None)", expect="P1b|", quick=True),
             Variant("sorted-results", SCAN, "steady_state", "raw_results=[i[1] for i in res]", "raw_results=[i[1] for i in sorted(res, key=str)]", expect="P2|", quick=True),
             Variant("worker-unwraps", SCAN, "_time_course_worker", "return res.default(lambda: Simulation.default(model=model, time_points=time_points))", "return res.unwrap_or_err()", expect="P4|", quick=True),
+            Variant("cache-hits-served-first", PAR, "parallelise", "    return results", "    return [r for r in results if r[0] is not None] + [r for r in results if r[0] is None]", expect="P2|", quick=True),
+            Variant("inputs-filtered", PAR, "parallelise", "    worker = partial(_load_or_run, fn=fn, cache=cache)", "    inputs = [i for i in inputs if i[0] is not None]\n    worker = partial(_load_or_run, fn=fn, cache=cache)", expect="P2|"),
             Variant("parallel-sorted", PAR, "parallelise", "results.append((key, value))", "results.append((key, value))\n                    results = sorted(results, key=str)", expect="P2|"),
             Variant("scan-passes-timeout", SCAN, "protocol", "cache=cache, parallel=parallel)", "cache=cache, parallel=parallel, timeout=10.0)", expect="P3|"),
         ]
